@@ -44,14 +44,16 @@ def _growth(func):
 
 
 def _shutdown_attempts(func):
-    """`if not self.request_retry_max_attempts: self.request_retry_max_attempts = N` in shutdown()."""
+    """`if not max_attempts and self._shuttingdown: max_attempts = N` in _handle_commit_error()."""
     for n in ast.walk(func):
-        if isinstance(n, ast.If) and isinstance(n.test, ast.UnaryOp) and isinstance(n.test.op, ast.Not) and isinstance(n.test.operand, ast.Attribute) \
-                and n.test.operand.attr == "request_retry_max_attempts":
-            st = n.body[0]
-            if isinstance(st, ast.Assign) and isinstance(st.targets[0], ast.Attribute) and st.targets[0].attr == "request_retry_max_attempts":
-                return const_value(st.value)
-    raise KeyError("shutdown: retry attempt cap not found")
+        if isinstance(n, ast.If) and isinstance(n.test, ast.BoolOp) and isinstance(n.test.op, ast.And) and len(n.test.values) == 2:
+            a, b = n.test.values
+            if isinstance(a, ast.UnaryOp) and isinstance(a.op, ast.Not) and isinstance(a.operand, ast.Name) and a.operand.id == "max_attempts" \
+                    and isinstance(b, ast.Attribute) and b.attr == "_shuttingdown":
+                st = n.body[0]
+                if isinstance(st, ast.Assign) and isinstance(st.targets[0], ast.Name) and st.targets[0].id == "max_attempts":
+                    return const_value(st.value)
+    raise KeyError("_handle_commit_error: commit retry cap while shutting down not found")
 
 
 def extract(src):
@@ -81,7 +83,7 @@ def extract(src):
         ("growFactorLarge", large),
         ("growThreshold", threshold),
         ("growFactorSmall", small),
-        ("shutdownRetryAttempts", _shutdown_attempts(src.func("consumer.py", "Consumer.shutdown"))),
+        ("shutdownRetryAttempts", _shutdown_attempts(src.func("consumer.py", "Consumer._handle_commit_error"))),
         ("offsetEarliest", "Int", "(%d)" % _module_const(common, "OFFSET_EARLIEST")),
         ("offsetLatest", "Int", "(%d)" % _module_const(common, "OFFSET_LATEST")),
         ("offsetNotCommitted", "Int", "(%d)" % _module_const(common, "OFFSET_NOT_COMMITTED")),
